@@ -49,6 +49,16 @@ def main():
             counter["k"] += 1; return FakeUUID(counter["k"])
     DW.uuid = UuidMod
     res = {"pid": os.getpid()}
+    if a.get("early_worker"):
+        # relative speeds of the worker processes: every pool worker but the first one to come up is slow to start (descheduled, a
+        # cold interpreter), so the early one is back at the task queue before the others have taken a writer
+        flag = str(root) + ".first_worker"
+        def slow_start():
+            try:
+                os.close(os.open(flag, os.O_CREAT | os.O_EXCL | os.O_WRONLY))
+            except FileExistsError:
+                time.sleep(1.5)
+        os.register_at_fork(after_in_child=slow_start)
     try:
         if a.get("other_first"):
             # this process has written *another* dataset with a multi-writer call before (same attribute names, its own directories)
